@@ -43,6 +43,12 @@ def exec_ape(job):
     ref = build(c["ref"], "se3" if n % 2 else "pq", u)
     est = build(c["est"], "pq" if (n // 2) % 2 else "se3", u)
     m = metrics.APE(getattr(metrics.PoseRelation, REL[c["rel"]]))
+    if (n // 4) % 2:          # the same metric object was used on other data before (nothing may carry over)
+        try:
+            m.process_data((est, est))
+            m.get_all_statistics()
+        except Exception:  # noqa: BLE001
+            pass
     try:
         m.process_data((ref, est))
     except metrics.MetricsException:
@@ -77,6 +83,13 @@ def exec_rpe(job):
     try:
         m = metrics.RPE(getattr(metrics.PoseRelation, REL[c["rel"]]), delta, unit, q["tn"] / q["td"], q["all"], c["fromref"])
         with contextlib.redirect_stdout(io.StringIO()):
+            if (n // 4) % 2:          # the same metric object was used on other data before (nothing may carry over)
+                try:
+                    m.process_data((est, ref))
+                    m.get_all_statistics()
+                except Exception:  # noqa: BLE001
+                    pass
+                rec.clear()
             m.process_data((ref, est))
     except filters.FilterException:
         return {"out": "FilterException"}
